@@ -15,6 +15,7 @@ pub enum Profile {
     Scan,
     Big,
     Batch,
+    Oversize,
 }
 
 pub const PROFILES: [Profile; 8] = [
@@ -40,6 +41,7 @@ impl Profile {
             "scan" => Self::Scan,
             "big" => Self::Big,
             "batch" => Self::Batch,
+            "oversize" => Self::Oversize,
             _ => return None,
         })
     }
@@ -54,6 +56,7 @@ impl Profile {
             Self::Scan => "scan",
             Self::Big => "big",
             Self::Batch => "batch",
+            Self::Oversize => "oversize",
         }
     }
 }
@@ -91,6 +94,7 @@ pub fn gen_cfg(rng: &mut Rng, kind: &'static str, profile: Profile, capmode: &st
         Profile::Big => Some(rng.pick(&[129u64, 150, 200, 256])),
         Profile::Batch => rng.pick(&[None, Some(1000u64), Some(400), Some(130)]),
         Profile::Scan => Some(rng.pick(&[2u64, 3, 4, 5, 8])),
+        Profile::Oversize => Some(rng.pick(&[1u64, 2, 3, 5, 8, 10])),
         _ => match rng.below(12) {
             0 => None,
             1 => Some(0),
@@ -106,6 +110,7 @@ pub fn gen_cfg(rng: &mut Rng, kind: &'static str, profile: Profile, capmode: &st
     };
     let c = cap.unwrap_or(8);
     let weigher = match profile {
+        Profile::Oversize => WeigherKind::Val,
         Profile::Growth => rng.pick(&[
             WeigherKind::VMod(4),
             WeigherKind::VMod(c + 2),
@@ -202,6 +207,34 @@ pub fn gen_case(seed: u64, kind: &'static str, profile: Profile, len: usize, whi
         }
         _ => vec![SEC, SEC / 2, 2 * SEC, 100_000_000, 500_000_000, 3 * SEC, 501_000_000],
     };
+    if profile == Profile::Oversize {
+        // Few keys, values that weigh 0, a little, exactly the capacity, and far more than the
+        // capacity; updates and invalidations follow each other with the earlier ops still
+        // queued (no clock step inside a round: the housekeeper window stays open).
+        let c = cfg.cap.unwrap_or(4);
+        let vals = [0u64, 1, 1, 2, c, c + 1, c * 2 + 3, 20];
+        for _ in 0..len {
+            let k = rng.below(nkeys.min(4));
+            match rng.below(16) {
+                0..=6 => push(&mut out, format!("ins {} {}", k, rng.pick(&vals))),
+                7 | 8 => push(&mut out, format!("inv {}", k)),
+                9 | 10 => push(&mut out, format!("get {}", k)),
+                11 => push(&mut out, format!("has {}", k)),
+                12 => push(&mut out, "iter".into()),
+                13 => {
+                    if sync { push(&mut out, "sync".into()) } else { push(&mut out, format!("get {}", k)) }
+                }
+                14 => out.push(format!("adv {}", rng.pick(&[1u64, 100_000_000, 600_000_000]))),
+                _ => push(&mut out, format!("ins {} {}", rng.below(nkeys), rng.below(3))),
+            }
+        }
+        if sync {
+            out.push("sync".into());
+            out.push("snap".into());
+        }
+        out.push("iter".into());
+        return out;
+    }
     if profile == Profile::Batch {
         // Phases: a burst of inserts at one clock reading (more than one eviction batch),
         // a clock step to / beyond the deadline, then lookups of keys from all over the
@@ -259,7 +292,7 @@ pub fn gen_case(seed: u64, kind: &'static str, profile: Profile, len: usize, whi
                 Profile::Churn => (38, 14, 4, 2, 24, 3, 3, 6, 6),
                 Profile::Growth => (50, 18, 4, 3, 6, 1, 2, 8, 8),
                 Profile::Scan => (40, 45, 2, 1, 3, 0, 0, 6, 3),
-                Profile::Big | Profile::Batch => (55, 20, 2, 1, 8, 1, 1, 2, 10),
+                Profile::Big | Profile::Batch | Profile::Oversize => (55, 20, 2, 1, 8, 1, 1, 2, 10),
             };
         let mut acc = 0;
         let mut pick = |p: u64| { acc += p; r < acc };
